@@ -564,6 +564,14 @@ def build_population(prop, tier, seed):
         k = profile(prop, rng)
         hh = gen.HistoryGen(rng, k).gen()
         if hh["rows"] and rng.random() < 0.08:
+            # cells that carry no information: a split ratio noted on an ordinary row (the column only means something on
+            # Split rows), and the currency left blank where it is CAD (also when the commission has a currency of its own)
+            for r in hh["rows"]:
+                if r["action"] in ("Buy", "Sell") and not r.get("split") and rng.random() < 0.3:
+                    r["split"] = rng.choice(["2-for-1", "1-for-2", "3-for-2"])
+                if r["action"] in ("Buy", "Sell") and (r.get("cur") or "") == "CAD" and not (r.get("fx") or "") and rng.random() < 0.4:
+                    r["cur"] = ""
+        if hh["rows"] and rng.random() < 0.08:
             # security names are names as written, whatever their case (also in opening positions)
             hh = rename_secs_case(hh, rng.choice([["brk.b", "vfv.to", "xeqt", "zag"], ["Foo", "bAR", "Qqq.To", "Abc"]]))
         pop.append((common.case_id(seed, prop, i), "random #%d" % i, hh))
